@@ -11,7 +11,7 @@ From Coq Require Import Lia.
 
 Local Open Scope Z_scope.
 
-Definition world_of (s : state) : world := mkWorld (led s) (sup s) (pools s) (now s).
+Definition world_of (s : state) : world := mkWorld (led s) (sup s) (pools s) (now s) (par s).
 
 Lemma value_leb_true S T L S' T' L' :
   (0 < L -> 0 < L' -> S * T * (L' * L') <= S' * T' * (L * L)) -> value_leb (S, T, L) (S', T', L') = true.
@@ -53,9 +53,31 @@ Proof.
   - destruct (Z.leb_spec (x * P18 * y) ((x * P18 + paid * ph) * (y - (recv + 1)))) as [Hc|_]; [lia|reflexivity].
 Qed.
 
+(** the recipient is not the escrow address of a pool the order trades on *)
+Lemma rcpt_not_leg_single s rcpt din dout n0 :
+  lpt_of_denoms s din dout = Ret n0 ->
+  rcpt_is_leg_pool (pools s) rcpt din dout = false -> rcpt <> pool_acct n0.
+Proof.
+  intros Hn Hr. destruct (lpt_of_denoms_inv _ _ _ _ Hn) as (_ & [(Hdi & Hpo)|(Hdo & Hdi & Hpo)]);
+    unfold rcpt_is_leg_pool, leg_pools, pool_lookup in Hr; unfold pool_of in Hpo.
+  - subst din. rewrite Z.eqb_refl, Hpo in Hr. simpl in Hr. rewrite orb_false_r in Hr. apply Z.eqb_neq in Hr. exact Hr.
+  - subst dout. destruct (Z.eqb_spec din std) as [|_]; [contradiction|]. rewrite Z.eqb_refl, Hpo in Hr.
+    simpl in Hr. rewrite orb_false_r in Hr. apply Z.eqb_neq in Hr. exact Hr.
+Qed.
+
+Lemma rcpt_not_leg_double s rcpt din dout n1 n2 :
+  din <> std -> dout <> std -> pool_of s din = Some n1 -> pool_of s dout = Some n2 ->
+  rcpt_is_leg_pool (pools s) rcpt din dout = false -> rcpt <> pool_acct n1 /\ rcpt <> pool_acct n2.
+Proof.
+  intros Hdi Hdo H1 H2 Hr. unfold rcpt_is_leg_pool, leg_pools, pool_lookup in Hr. unfold pool_of in H1, H2.
+  destruct (Z.eqb_spec din std) as [|_]; [contradiction|]. destruct (Z.eqb_spec dout std) as [|_]; [contradiction|].
+  rewrite H1, H2 in Hr. simpl in Hr. rewrite orb_false_r in Hr. apply orb_false_iff in Hr. destruct Hr as (A & B).
+  apply Z.eqb_neq in A. apply Z.eqb_neq in B. auto.
+Qed.
+
 (** the deltas of the two pools of a routed swap, and of the pool of a single hop *)
 Lemma c01_swap_model s buy sender rcpt din ain dout aout deadline s' r :
-  Inv s -> is_pool_acct sender = false -> is_pool_acct rcpt = false ->
+  Inv s -> is_pool_acct sender = false -> rcpt_is_leg_pool (pools s) rcpt din dout = false ->
   exec_swap s buy sender rcpt din ain dout aout deadline = Ret (s', r) ->
   (if din =? std then
      match pool_of s dout with Some n => leg_code (P18 - p_fee (par s)) buy (world_of s) (world_of s') n din dout | None => 2 end
@@ -71,9 +93,10 @@ Proof.
   intros I Hs Hr E.
   destruct (exec_swap_spec _ _ _ _ _ _ _ _ _ _ _ E) as (_ & _ & _ & Hain & Haout & Hdd & sold & bought & SE & B).
   assert (H0 : 0 <= (if buy then bought else sold)) by (destruct buy; lia).
-  apply not_pool_le in Hs. apply not_pool_le in Hr.
+  apply not_pool_le in Hs.
   destruct SE as [n0 Hd Hn Hp M R | n1 n2 s1 mid Hdi Hdo Hn1 Hn2 Hp1 Hp2 M1 R1 M2 R2].
-  - destruct (lpt_of_denoms_inv _ _ _ _ Hn) as (_ & [(Hdi & Hpo)|(Hdo & Hdi & Hpo)]).
+  - pose proof (rcpt_not_leg_single _ _ _ _ _ Hn Hr) as Hrn.
+    destruct (lpt_of_denoms_inv _ _ _ _ Hn) as (_ & [(Hdi & Hpo)|(Hdo & Hdi & Hpo)]).
     + subst din. rewrite Z.eqb_refl. rewrite Hpo.
       destruct (inv_rng _ I _ _ (pool_of_In _ _ _ Hpo)) as (Hn0 & _).
       destruct M as (ML & _).
@@ -91,6 +114,7 @@ Proof.
     destruct (lpt_of_denoms_inv _ _ _ _ Hn1) as (_ & [(Hx & _)|(_ & _ & Hpo1)]); [congruence|].
     destruct (lpt_of_denoms_inv _ _ _ _ Hn2) as (_ & [(_ & Hpo2)|(Hx & _)]); [|congruence].
     rewrite Hpo1, Hpo2.
+    destruct (rcpt_not_leg_double _ _ _ _ _ _ Hdi Hdo Hpo1 Hpo2 Hr) as (Hrn1 & Hrn2).
     apply pool_of_In in Hpo1. apply pool_of_In in Hpo2.
     assert (Hn12 : n1 <> n2).
     { intros Heq. subst n2. apply Hdd. exact (reg_same_n _ _ _ _ I Hpo1 Hpo2). }
@@ -128,9 +152,9 @@ Theorem c01_step_model_ok s m s' r o :
 Proof.
   intros I Hs E Ho. pose proof (mono_model s m I Hs) as Hm. rewrite (step_Ret _ _ _ _ E) in Hm.
   unfold c01_step. change (w_pools (world_of s)) with (pools s). rewrite Hm. cbn [negb].
-  destruct m as [buy sender rcpt din ain dout aout deadline | | | | | |]; try reflexivity.
+  destruct m as [buy sender rcpt din ain dout aout deadline | | | | | | |]; try reflexivity.
   rewrite Ho. change (0 =? 0) with true. cbn [negb orb].
-  destruct (is_pool_acct rcpt) eqn:Hr; [reflexivity|].
+  destruct (rcpt_is_leg_pool (pools s) rcpt din dout) eqn:Hr; [reflexivity|].
   unfold sender_ok in Hs. simpl in Hs, E.
   exact (c01_swap_model s buy sender rcpt din ain dout aout deadline s' r I Hs Hr E).
 Qed.
@@ -191,12 +215,21 @@ Proof.
   reflexivity.
 Qed.
 
+Lemma par_eqb_refl p : par_eqb p p = true.
+Proof. unfold par_eqb. rewrite !Z.eqb_refl. reflexivity. Qed.
+
 Theorem c02_step_model_fail s m f o :
   exec s m = Fail f -> o_code o <> 0 ->
   c02_step (par s) m o (world_of s) (world_of s) = 0.
 Proof.
-  intros E Ho. unfold c02_step. destruct (Z.eqb_spec (o_code o) 0) as [|_]; [contradiction|]. cbn [negb].
-  rewrite unchanged_refl. reflexivity.
+  intros E Ho.
+  assert (Hm : c02_main (par s) m o (world_of s) (world_of s) = 0).
+  { unfold c02_main. destruct (Z.eqb_spec (o_code o) 0) as [|_]; [contradiction|]. cbn [negb].
+    rewrite unchanged_refl. reflexivity. }
+  assert (Hp : par_expected m o (world_of s) = par s).
+  { unfold par_expected. destruct m; try reflexivity.
+    destruct (Z.eqb_spec (o_code o) 0) as [|_]; [contradiction|reflexivity]. }
+  unfold c02_step. rewrite Hm, Hp. change (w_par (world_of s)) with (par s). rewrite par_eqb_refl. reflexivity.
 Qed.
 
 Lemma priced_buy_paid_pos s n din dout paid recv :
@@ -227,18 +260,19 @@ Proof.
 Qed.
 
 Lemma c02_swap_model s buy a r din ain dout aout deadline s' res :
-  Inv s -> is_pool_acct a = false -> is_pool_acct r = false ->
+  Inv s -> is_pool_acct a = false -> rcpt_is_leg_pool (pools s) r din dout = false ->
   exec_swap s buy a r din ain dout aout deadline = Ret (s', res) ->
   c02_swap buy a r din ain dout aout deadline (world_of s) (world_of s') = 0.
 Proof.
   intros I Hs Hr E.
   destruct (exec_swap_spec _ _ _ _ _ _ _ _ _ _ _ E) as (_ & Hdl & _ & Hain & Haout & Hdd & sold & bought & SE & B).
   assert (H0 : 0 <= (if buy then bought else sold)) by (destruct buy; lia).
-  apply not_pool_le in Hs. apply not_pool_le in Hr.
+  apply not_pool_le in Hs.
   pose proof (bounds_bool buy sold bought ain aout B) as HB.
   assert (Hdlb : (now s <=? deadline) = true) by (apply Z.leb_le; exact Hdl).
   destruct SE as [n0 Hd Hn Hp M R | n1 n2 s1 mid Hdi Hdo Hn1 Hn2 Hp1 Hp2 M1 R1 M2 R2].
   - (* single hop *)
+    pose proof (rcpt_not_leg_single _ _ _ _ _ Hn Hr) as Hrn.
     assert (Hpos : 0 < sold /\ 0 < bought).
     { destruct buy; [|lia]. split; [|lia]. apply (priced_buy_paid_pos _ _ _ _ _ _ I H0 Hp). }
     destruct (lpt_of_denoms_inv _ _ _ _ Hn) as (_ & Hcase).
@@ -273,6 +307,7 @@ Proof.
     destruct (lpt_of_denoms_inv _ _ _ _ Hn1) as (_ & [(Hx & _)|(_ & _ & Hpo1)]); [congruence|].
     destruct (lpt_of_denoms_inv _ _ _ _ Hn2) as (_ & [(_ & Hpo2)|(Hx & _)]); [|congruence].
     pose proof Hpo1 as Hl1. pose proof Hpo2 as Hl2.
+    destruct (rcpt_not_leg_double _ _ _ _ _ _ Hdi Hdo Hpo1 Hpo2 Hr) as (Hrn1 & Hrn2).
     apply pool_of_In in Hpo1. apply pool_of_In in Hpo2.
     assert (Hn12 : n1 <> n2).
     { intros Heq. subst n2. apply Hdd. exact (reg_same_n _ _ _ _ I Hpo1 Hpo2). }
@@ -509,17 +544,23 @@ Proof.
 Qed.
 
 (** ** C02: the predicate on a model step *)
-Theorem c02_step_model_ok s m s' r o :
+
+(** what may be signed and said: by users (or the authority), a creation fee never in an LPT denom *)
+Definition msg_ok (m : msg) : Prop :=
+  signer_ok m /\ match m with MUpdateParams _ q => p_cdenom q <= 1000 | _ => True end.
+
+Lemma c02_main_model_ok s m s' r o :
   Inv s -> signer_ok m -> p_cdenom (par s) <= 1000 ->
   exec s m = Ret (s', r) -> o_code o = 0 ->
-  c02_step (par s) m o (world_of s) (world_of s') = 0.
+  c02_main (par s) m o (world_of s) (world_of s') = 0.
 Proof.
-  intros I Hs Hcd E Ho. unfold c02_step. rewrite Ho. change (0 =? 0) with true. cbn [negb].
+  intros I Hs Hcd E Ho. unfold c02_main. rewrite Ho. change (0 =? 0) with true. cbn [negb].
   destruct m as [buy sender rcpt din ain dout aout deadline | sender dtok max_tok exact min_liq deadline
                 | sender dlpt w min_std min_tok deadline | sender cp0 dtok exact min_liq deadline
-                | sender cp0 dtok min_tok w deadline | from to d amt | dt];
+                | sender cp0 dtok min_tok w deadline | from to d amt | dt | auth q];
     unfold signer_ok in Hs; simpl in Hs, E.
-  - destruct (is_pool_acct rcpt) eqn:Hr; [reflexivity|].
+  - change (w_pools (world_of s)) with (pools s).
+    destruct (rcpt_is_leg_pool (pools s) rcpt din dout) eqn:Hr; [reflexivity|].
     destruct Hs as (Hs & _). eapply c02_swap_model; eassumption.
   - destruct Hs as (Hs & Hf & Hm). eapply c02_add_model; eassumption.
   - destruct Hs as (Hs & _). eapply c02_remove_model; eassumption.
@@ -532,13 +573,37 @@ Proof.
     rewrite (sdelta_ok_intro _ _ _ (fun _ => 0) MS) by reflexivity.
     rewrite RP, pools_eqb_refl. reflexivity.
   - inversion E; subst.
-    change (world_of {| led := led s; sup := sup s; pools := pools s; seq := seq s; now := now s + dt; par := par s |})
-      with (mkWorld (led s) (sup s) (pools s) (now s + dt)).
-    unfold unchanged, world_of. cbn [w_led w_sup w_pools].
+    unfold unchanged, world_of. cbn [w_led w_sup w_pools led sup pools].
     rewrite pools_eqb_refl.
     rewrite (delta_ok_intro (led s) (led s) (fun _ _ => 0) (fun _ _ => 0)) by (intros; lia).
     rewrite (sdelta_ok_intro (sup s) (sup s) (fun _ => 0) (fun _ => 0)) by (intros; lia).
     reflexivity.
+  - destruct (exec_update_params_spec _ _ _ _ _ E) as (_ & Ha & Hv & HLed & HSup & (RP & _) & _ & _).
+    unfold unchanged, world_of. cbn [w_led w_sup w_pools]. rewrite HLed, HSup, RP.
+    rewrite pools_eqb_refl.
+    rewrite (delta_ok_intro (led s) (led s) (fun _ _ => 0) (fun _ _ => 0)) by (intros; lia).
+    rewrite (sdelta_ok_intro (sup s) (sup s) (fun _ => 0) (fun _ => 0)) by (intros; lia).
+    rewrite Hv. subst auth. rewrite Z.eqb_refl. reflexivity.
+Qed.
+
+Lemma par_expected_model s m s' r o :
+  exec s m = Ret (s', r) -> o_code o = 0 -> par_expected m o (world_of s) = par s'.
+Proof.
+  intros E Ho. pose proof (step_par s m) as SP. rewrite (step_Ret _ _ _ _ E) in SP.
+  unfold par_expected. destruct m; try (destruct SP as [->|(p & Hm & _)]; [reflexivity|discriminate]).
+  rewrite Ho. change (0 =? 0) with true. cbv iota.
+  simpl in E. destruct (exec_update_params_spec _ _ _ _ _ E) as (_ & _ & _ & _ & _ & _ & _ & Hp). symmetry. exact Hp.
+Qed.
+
+Theorem c02_step_model_ok s m s' r o :
+  Inv s -> signer_ok m -> p_cdenom (par s) <= 1000 ->
+  exec s m = Ret (s', r) -> o_code o = 0 ->
+  c02_step (par s) m o (world_of s) (world_of s') = 0.
+Proof.
+  intros I Hs Hcd E Ho. unfold c02_step.
+  rewrite (c02_main_model_ok s m s' r o I Hs Hcd E Ho).
+  rewrite (par_expected_model s m s' r o E Ho). change (w_par (world_of s')) with (par s').
+  rewrite par_eqb_refl. reflexivity.
 Qed.
 
 (** ** the model never fails with the outcome "ok", so code 0 means success *)
@@ -613,6 +678,7 @@ Proof.
   - unfold exec_remove_uni. nok_all; try nok_leaf.
   - unfold exec_send. nok_all; try nok_leaf.
   - apply ret_nok.
+  - unfold exec_update_params. nok_all.
 Qed.
 
 Lemma code_zero_Ret s m : code_of s m = 0 -> exists s' r, exec s m = Ret (s', r).
@@ -622,7 +688,7 @@ Proof.
 Qed.
 
 (** ** whole histories: the observation the model itself would give, and both predicates *)
-Definition obs_of (s : state) (m : msg) : obs := mkObs (code_of s m) (resp_of s m) [] [] (pools (step s m)).
+Definition obs_of (s : state) (m : msg) : obs := mkObs (code_of s m) (resp_of s m) [] [] (pools (step s m)) (par (step s m)).
 
 Fixpoint prop_codes (s : state) (ms : list msg) : list (Z * Z) :=
   match ms with
@@ -632,22 +698,27 @@ Fixpoint prop_codes (s : state) (ms : list msg) : list (Z * Z) :=
        c02_step (par s) m (obs_of s m) (world_of s) (world_of (step s m))) :: prop_codes (step s m) ms'
   end.
 
+Lemma msg_ok_cdenom s m : msg_ok m -> p_cdenom (par s) <= 1000 -> p_cdenom (par (step s m)) <= 1000.
+Proof.
+  intros (_ & Hq) Hcd. destruct (step_par s m) as [->|(p & -> & _ & ->)]; [exact Hcd|exact Hq].
+Qed.
+
 Theorem model_history_passes ms : forall s,
-  Inv s -> Forall signer_ok ms -> p_cdenom (par s) <= 1000 ->
+  Inv s -> Forall msg_ok ms -> p_cdenom (par s) <= 1000 ->
   Forall (fun c => c = (0, 0)) (prop_codes s ms).
 Proof.
   induction ms as [|m ms IH]; intros s I Hok Hcd; simpl; [constructor|].
-  inversion Hok as [|? ? Hm Hms]; subst.
+  inversion Hok as [|? ? Hm Hms]; subst. pose proof Hm as (Hsg & _).
   constructor.
   - destruct (exec s m) as [[s' r]|f] eqn:E.
     + assert (Hc : o_code (obs_of s m) = 0) by (unfold obs_of, code_of; simpl; rewrite E; reflexivity).
       rewrite (step_Ret _ _ _ _ E).
-      rewrite (c01_step_model_ok s m s' r _ I (signer_sender_ok _ Hm) E Hc).
-      rewrite (c02_step_model_ok s m s' r _ I Hm Hcd E Hc). reflexivity.
+      rewrite (c01_step_model_ok s m s' r _ I (signer_sender_ok _ Hsg) E Hc).
+      rewrite (c02_step_model_ok s m s' r _ I Hsg Hcd E Hc). reflexivity.
     + assert (Hc : o_code (obs_of s m) <> 0).
       { intros Hz. destruct (code_zero_Ret s m Hz) as (s' & r & E'). congruence. }
       rewrite (failed_step_changes_nothing _ _ _ E).
-      rewrite (c01_step_model_fail s m f _ I (signer_sender_ok _ Hm) E Hc).
+      rewrite (c01_step_model_fail s m f _ I (signer_sender_ok _ Hsg) E Hc).
       rewrite (c02_step_model_fail s m f _ E Hc). reflexivity.
-  - apply IH; [apply Inv_step; exact I|exact Hms|rewrite step_par; exact Hcd].
+  - apply IH; [apply Inv_step; exact I|exact Hms|apply msg_ok_cdenom; assumption].
 Qed.
